@@ -175,6 +175,10 @@ def d_lines(case_id, db, text, lines):
                                 [hexd(c.get(k, float("nan"))) for k in ("area", "grams", "cap0", "cap1")]))
         for el, n in sites.items():
             out.append(f"I {case_id} {first} S {hexs(el)} {hexd(n)}")
+        # initial amount of a kinetic reactant (-m0): reference scale of the drift bound of kinetic-related sites
+        m0s = [float(x) for x in re.findall(r"(?m)^\s*-m0\s+([0-9.eE+-]+)", text)]
+        if m0s:
+            out.append(f"I {case_id} {first} M {hexd(max(m0s))}")
     for n in sorted(names):
         s = sp.get(n)
         if s is None or s.add_logk:
@@ -331,6 +335,9 @@ def direct_oracle(spec, lines, fail):
                 f"electrostatic term gives {rhs!r}")
     if kind == "site-related":
         big = max([abs(lhs), abs(rhs)] + [bb["R"].get(f"surf:{name}", 0.0) for bb in blocks[:blk + 1]])
+        kin = (spec or {}).get("kin")
+        if kin:      # initial sites = proportion × m0 (the drift bound is relative to the largest site total of the run)
+            big = max(big, max(kin["prop"]) * kin["m0"])
         if abs(lhs - rhs) <= tol * (blk + 2) * big:
             return None
         return (f"site type {name} is related to a reactant: surface species sum to {lhs!r} mol but proportion x moles of the "
